@@ -81,18 +81,14 @@ def r1_aligned_pointer(ctx):
         ok = b[0] == 'field' and bool(call) and peel(call[0][2][1])[0] == 'arg' and peel(call[0][2][1])[2] == 'size' and peel(call[0][2][2])[2] == 'align'
         ctx.check(ok, 'find_region-start-from-fit', "find_region hands out the start address computed by alloc_from_region for the region it removes", ff.where_path(path), show(b)[:200])
     ctx.floor('Some paths of find_region', n, 1)
-    # (c) alloc_from_region
+    # (c) alloc_from_region: every success case hands out align_up(region start, align)
     n = 0
-    for path, outcome, decs in fn_paths(ctx, fr):
-        if outcome != 'return':
-            continue
-        r = path_ret(fr, path)
-        if not (r and r[0] == 'agg' and r[1].endswith('Result::Ok')):
-            continue
+    A_ALIGN = fr.local_name(3)
+    for path, atoms, payload in success_cases(ctx, fr):
         n += 1
-        v = simp(r[2][0])
+        v = simp(payload)
         ok = v[0] == 'call' and v[1] == A + 'align_up' and any(x[0] == 'call' and x[1] == A + 'ListNode::start_addr' for x in walk(v[2][0])) and \
-            simp(v[2][1])[0] == 'arg' and simp(v[2][1])[2] == 'align'
+            simp(v[2][1])[0] == 'arg' and simp(v[2][1])[1] == 3
         ctx.check(ok, 'fit-returns-aligned-start', 'alloc_from_region returns align_up(region start, align)', fr.where_path(path), show(v)[:160])
     ctx.floor('Ok paths of alloc_from_region', n, 1)
     # (d) align_up shape
@@ -114,13 +110,7 @@ def r2_fit(ctx):
     fa = ctx.anchor(AL + '::allocate')
     if not (fr and fa):
         return
-    for path, outcome, decs in fn_paths(ctx, fr):
-        if outcome != 'return':
-            continue
-        r = path_ret(fr, path)
-        if not (r and r[0] == 'agg' and r[1].endswith('Result::Ok')):
-            continue
-        atoms = [a for _, a in path_atoms(fr, path, decs)]
+    for path, atoms, payload in success_cases(ctx, fr):
         fit = False
         for a in atoms:
             if a[0] == 'cmp':
@@ -133,13 +123,18 @@ def r2_fit(ctx):
                     fit = True
         ctx.check(fit, 'fit-test', 'alloc_from_region accepts a region only if the aligned block ends at or before the region end', fr.where_path(path), [show_atom(a) for a in atoms if a[0] == 'cmp'])
         # remainder is 0 or >= size_of ListNode
-        rem = [a for a in atoms if a[0] == 'cmp' and any(x[0] == 'bin' and x[1].startswith('Sub') for x in walk(a[2]))]
+        def _is_end(t):
+            return any(x[0] == 'call' and x[1] == A + 'ListNode::end_addr' for x in walk(t))
+        def _is_blockend(t):
+            return any(x[0] == 'call' and x[1].endswith('::checked_add') for x in walk(t))
+        rem = [a for a in atoms if a[0] == 'cmp' and (any(x[0] == 'bin' and x[1].startswith('Sub') for x in walk(a[2])) or
+                                                      (a[1] == 'eq' and ((_is_end(a[2]) and _is_blockend(a[3])) or (_is_end(a[3]) and _is_blockend(a[2])))))]
         ctx.check(len(rem) >= 1, 'remainder-test', 'a remainder that could not hold a free-list node is rejected', fr.where_path(path), [show_atom(a) for a in rem])
     # checked_add operand: alloc_start + size
     ca = [s for s in fr.calls() if s.name.endswith('::checked_add')]
     if ctx.floor('checked_add in alloc_from_region', len(ca), 1):
         a0 = peel(fr.expr_operand(ca[0].args[0], ca[0].b, 'T')); a1 = peel(fr.expr_operand(ca[0].args[1], ca[0].b, 'T'))
-        ctx.check(a0[0] == 'call' and a0[1] == A + 'align_up' and a1[0] == 'arg' and a1[2] == 'size', 'block-end', 'the block end is aligned start + size', ca[0].where())
+        ctx.check(a0[0] == 'call' and a0[1] == A + 'align_up' and a1[0] == 'arg' and a1[1] == 2, 'block-end', 'the block end is aligned start + size', ca[0].where())
     # allocate: the remainder goes back as [alloc_end, region_end)
     adds = fa.calls_to(IN + '::add_free_region')
     if ctx.floor('remainder re-insertion in allocate', len(adds), 1):
@@ -180,8 +175,28 @@ def r3_size_agreement(ctx):
     fn = ctx.anchor(LB + '::new_in')
     fdrop = ctx.anchor('<%s as std::ops::Drop>::drop' % LB)
     if fn and fdrop:
-        l1 = [s for s in fn.calls() if s.name == 'std::alloc::Layout::new']
-        l2 = [s for s in fdrop.calls() if s.name == 'std::alloc::Layout::new']
+        def layout_sites(f):
+            """Layout::new::<..>() calls in f or in a named constant f mentions (e.g. `const LAYOUT: Layout = Layout::new::<E>()`)"""
+            out = [s for s in f.calls() if s.name == 'std::alloc::Layout::new']
+            consts = set()
+            def scan(x):
+                if isinstance(x, list):
+                    for y in x:
+                        scan(y)
+                elif isinstance(x, dict):
+                    if isinstance(x.get('cdef'), str):
+                        consts.add(strip_generics(x['cdef']))
+                    for v in x.values():
+                        if isinstance(v, (list, dict)):
+                            scan(v)
+            scan(f.blocks)
+            for k in sorted(consts):
+                g = P.fns.get(k)
+                if g is not None and g.kind == 'const':
+                    out += [s for s in g.calls() if s.name == 'std::alloc::Layout::new']
+            return out
+        l1 = layout_sites(fn)
+        l2 = layout_sites(fdrop)
         ok = len(l1) == 1 and len(l2) == 1 and l1[0].targs == l2[0].targs == ['E']
         ctx.check(ok, 'box-layout', 'LocalBox allocates and frees with Layout::new::<E>() of the same E', fn.where(), {'new_in': l1 and l1[0].targs, 'drop': l2 and l2[0].targs})
         dip = [s for s in fdrop.calls() if s.name.endswith('drop_in_place')]
@@ -284,8 +299,10 @@ def r5_drain_before_allocator(ctx):
             for path, outcome, decs in fn_paths(ctx, fl):
                 if outcome != 'return':
                     continue
+                # the loop is left only after pop_min reported an empty list (is_some() == false, or a `None` pattern)
                 outs = [r for _, r in call_outcomes(fl, path, decs, 'std::option::Option::is_some')]
-                ok = ok and bool(outs) and outs[-1] is False
+                outs2 = [r for _, r in call_outcomes(fl, path, decs, L + '::pop_min')]
+                ok = ok and ((bool(outs) and outs[-1] is False) or (bool(outs2) and outs2[-1] == 'None'))
         ctx.check(ok, 'list-drop-pops-all', 'DualLinkedList::drop pops (and thereby drops) every remaining node', fl.where())
     # the list's sentinels are boxes owned by the list and freed after the loop by field drop
     la = P.adts.get(L)
